@@ -25,6 +25,7 @@ type OwnE2E struct {
 	HTTP   *HTTPCase       `json:"http,omitempty"`
 	Out    *core.OutCase   `json:"out,omitempty"`
 	Dial   *WSDialCase     `json:"dial,omitempty"`
+	In     *core.InCase    `json:"in,omitempty"`
 }
 
 func genOwnE2E(r *simrt.Rand, tier string, idx int) *OwnE2E {
@@ -34,6 +35,14 @@ func genOwnE2E(r *simrt.Rand, tier string, idx int) *OwnE2E {
 		return &OwnE2E{Out: core.Prop("C01").Gen(r, tier, idx).(*core.OutCase)}
 	}
 	switch idx % 16 {
+	case 3:
+		// the core engine's read path with application supplied read buffers: the inbound scenarios
+		// of C02 with OnReadBufferAlloc / OnReadBufferFree hooks on the tracked pool
+		c := core.InboundProp().Gen(r, tier, idx).(*core.InCase)
+		if c.Eng.Network == "udp" || c.Eng.Async {
+			c.Eng.Network, c.Eng.Async, c.Eng.IOExec = "tcp", false, ""
+		}
+		return &OwnE2E{In: c}
 	case 7:
 		// both ends nbio: websocket.Dialer against the Upgrader
 		return &OwnE2E{Dial: genWSDialCase(r, tier)}
@@ -70,6 +79,12 @@ func runOwnE2E(t *testing.T, ci interface{}, trace bool) *common.Outcome {
 	case c.Dial != nil:
 		untrack := tracking(true)
 		o = runWSDial(t, c.Dial, trace)
+		untrack(o, "C11")
+	case c.In != nil:
+		untrack := tracking(true)
+		core.ReadBufHooks = true
+		o = core.InboundProp().Run(t, c.In, trace)
+		core.ReadBufHooks = false
 		untrack(o, "C11")
 	case c.Out != nil:
 		untrack := tracking(true)
@@ -117,6 +132,10 @@ func shrinkOwnE2E(ci interface{}) []interface{} {
 	case c.Dial != nil:
 		for _, x := range shrinkWSDial(c.Dial) {
 			out = append(out, &OwnE2E{Dial: x.(*WSDialCase)})
+		}
+	case c.In != nil:
+		for _, x := range core.InboundProp().Shrink(c.In) {
+			out = append(out, &OwnE2E{In: x.(*core.InCase)})
 		}
 	case c.Out != nil:
 		if sh := core.Prop("C01").Shrink; sh != nil {
